@@ -285,11 +285,11 @@ func (f *g2lFn) assignTo(l ast.Expr, val string, define bool, ind int) []string 
 		if !ok || f.names[o] == "" {
 			f.fail("assignment to `%s` (not a local of this function)", x.Name)
 		}
-		return []string{fmt.Sprintf("%s%s := %s", g2lInd(ind), f.names[o], val)}
+		return append([]string{fmt.Sprintf("%s%s := %s", g2lInd(ind), f.names[o], val)}, f.afterIdentAssign(o, ind)...) // go2lean_own.go: cursors write back
 	case *ast.SelectorExpr:
 		// x.f = v  ⇒  x = { x with f := v }   (x a struct VALUE, possibly itself a field or element)
 		xt := f.typeOf(x.X)
-		if g2lKindOf(xt) != kStruct && !f.inOutBase(x.X) {
+		if g2lKindOf(xt) != kStruct && !f.inOutBase(x.X) && !(g2lIsPtr(xt) && f.ownWritable(x.X)) { // go2lean_own.go
 			f.fail("assignment to `%s` (only fields of struct values; through a pointer the callee's caller would see it)", f.src(l))
 		}
 		n := f.namedOf(xt)
@@ -299,20 +299,24 @@ func (f *g2lFn) assignTo(l ast.Expr, val string, define bool, ind int) []string 
 		if sel := f.g.info.Selections[x]; sel == nil || sel.Kind() != types.FieldVal || len(sel.Index()) != 1 {
 			f.fail("assignment to `%s`", f.src(l))
 		}
-		return f.assignTo(x.X, fmt.Sprintf("{ %s with %s := %s }", f.expr(x.X), f.fieldLean(n, x.Sel.Name), val), false, ind)
+		base, wrap := f.updateBase(x.X) // go2lean_own.go: the pointee of a pointer on a writable path
+		return f.assignThrough(x.X, wrap(fmt.Sprintf("{ %s with %s := %s }", base, f.fieldLean(n, x.Sel.Name), val)), ind)
 	case *ast.IndexExpr:
 		// x[i] = v  ⇒  x = x.set i v   (x an ARRAY value; slices alias their backing array)
 		if out, ok := f.mapAssign(x, val, ind); ok {
 			return out
 		}
-		if _, isArr := f.typeOf(x.X).Underlying().(*types.Array); !isArr && !f.localSliceOK(x.X) { // go2lean_string.go
+		if _, isArr := f.typeOf(x.X).Underlying().(*types.Array); !isArr && !f.localSliceOK(x.X) && !f.ownWritable(x.X) { // go2lean_string.go, go2lean_own.go
 			f.fail("assignment to an element of `%s` (not an array value: slices alias their backing array)", f.src(x.X))
 		}
 		i := f.expr(x.Index)
 		if g2lKindOf(f.typeOf(x.Index)) == kInt {
 			i = "Int.toNat " + g2lPar(i)
 		}
-		return f.assignTo(x.X, fmt.Sprintf("%s.set %s %s", g2lPar(f.expr(x.X)), g2lPar(i), g2lPar(val)), false, ind)
+		return f.assignThrough(x.X, fmt.Sprintf("%s.set %s %s", g2lPar(f.expr(x.X)), g2lPar(i), g2lPar(val)), ind)
+	}
+	if out, ok := f.assignOther(l, val, ind); ok { // go2lean_own.go: *p = v
+		return out
 	}
 	f.fail("assignment to `%s`", f.src(l))
 	return nil
@@ -381,6 +385,9 @@ func (f *g2lFn) ret(x *ast.ReturnStmt, ind int) []string {
 	}
 	switch len(x.Results) {
 	case 0:
+		if out, ok := f.voidReturn(ind); ok { // go2lean_own.go
+			return out
+		}
 		f.fail("bare return (named results are outside the subset)")
 	case 1:
 		if _, ok := f.typeOf(x.Results[0]).(*types.Tuple); ok {
@@ -605,6 +612,10 @@ func (f *g2lFn) rangeStmt(x *ast.RangeStmt, ind int) []string {
 	var head []string
 	switch g2lKindOf(t) {
 	case kList:
+		if o2, h2, ok := f.rangeCursor(x, k, v, t, ind); ok { // go2lean_own.go
+			out, head = o2, h2
+			break
+		}
 		it := f.fresh("it")
 		if k == nil {
 			out = append(out, fmt.Sprintf("%sfor %s in %s do", g2lInd(ind), it, f.expr(x.X)))
@@ -665,7 +676,7 @@ func (f *g2lFn) stmt(s ast.Stmt, ind int) []string {
 		}
 		return out
 	case *ast.AssignStmt:
-		return f.assign(x, ind)
+		return f.assignOwn(x, ind) // go2lean_own.go
 	case *ast.IncDecStmt:
 		op := token.ADD
 		if x.Tok == token.DEC {
@@ -707,6 +718,7 @@ func (f *g2lFn) stmt(s ast.Stmt, ind int) []string {
 					val = z
 				}
 				out = append(out, f.letLine(ind, o, f.names[o], o.Type(), val))
+				out = append(out, f.foundDecl(o, ind)...) // go2lean_own.go
 			}
 		}
 		return out
@@ -736,6 +748,9 @@ func (f *g2lFn) stmt(s ast.Stmt, ind int) []string {
 			}
 			return []string{g2lInd(ind) + "continue"}
 		}
+	}
+	if out, ok := f.stmtOwn(s, ind); ok { // go2lean_own.go: call statements of functions with in-out parameters
+		return out
 	}
 	f.fail("statement `%s` (%T) is outside the subset", g2lOneLine(f.src(s)), s)
 	return nil
@@ -838,7 +853,7 @@ func (g *g2l) translateFunc(key string) (u *g2lUnit) {
 	if sig.Variadic() {
 		f.fail("variadic function")
 	}
-	if sig.Results().Len() == 0 {
+	if sig.Results().Len() == 0 && len(g.inOutFor(key)) == 0 {
 		f.fail("no result (a function without result is only called for its effect)")
 	}
 	if fd.Type.Results != nil {
@@ -854,6 +869,7 @@ func (g *g2l) translateFunc(key string) (u *g2lUnit) {
 	var params, remut []string
 	f.initPtrModes(obj)
 	f.initInOut(obj, g.inOutFor(key))
+	f.initOwned(fd) // go2lean_own.go
 	addParam := func(v *types.Var, ptrRecv bool) {
 		name := f.names[v]
 		if name == "" {
@@ -879,7 +895,8 @@ func (g *g2l) translateFunc(key string) (u *g2lUnit) {
 		resT = f.lean(sig.Results())
 	}
 	resT = f.inOutResult(resT, sig.Results().Len())
-	if !g2lTerminates(fd.Body.List) {
+	isVoid := sig.Results().Len() == 0 // go2lean_own.go: the in-out parameters are the result
+	if !isVoid && !g2lTerminates(fd.Body.List) {
 		f.fail("the body does not end in a return on every path the translator recognises")
 	}
 	head := fmt.Sprintf("def %s %s : %s :=", u.lean, strings.Join(params, " "), resT)
@@ -896,6 +913,10 @@ func (g *g2l) translateFunc(key string) (u *g2lUnit) {
 			lines = append(lines, g2lInd(1)+r)
 		}
 		lines = append(lines, f.block(fd.Body.List, 1)...)
+		if isVoid {
+			vr, _ := f.voidReturn(1)
+			lines = append(lines, vr...)
+		}
 		u.text = head + " Id.run do\n" + strings.Join(lines, "\n") + "\n"
 	}
 	if f.loops != len(f.fuel) {
